@@ -1,6 +1,8 @@
 package engine
 
 import (
+	"golang.org/x/tools/go/ssa"
+	"go/ast"
 	"path/filepath"
 	"fmt"
 	"go/types"
@@ -10,7 +12,70 @@ import (
 )
 
 // UnitResult is the outcome of generating VCs for one unit.
+// NameTable: the parameter and local variable names of a function, in order of first
+// appearance.  Recorded with the baseline so that a contract written against the old
+// names still binds after a pure renaming (same number of names, same positions).
+type NameTable struct {
+	Params []string `json:"params"`
+	Locals []string `json:"locals"`
+}
+
+// NameBaseline is filled by the driver from baseline_names.json (unit -> names).
+var NameBaseline = map[string]NameTable{}
+
+func namesOf(fn *ssa.Function) NameTable {
+	var t NameTable
+	for _, p := range fn.Params {
+		t.Params = append(t.Params, p.Name())
+	}
+	for _, fv := range fn.FreeVars {
+		t.Params = append(t.Params, fv.Name())
+	}
+	seen := map[string]bool{}
+	for _, b := range fn.Blocks {
+		for _, in := range b.Instrs {
+			if d, ok := in.(*ssa.DebugRef); ok {
+				if id, ok := d.Expr.(*ast.Ident); ok && !seen[id.Name] {
+					seen[id.Name] = true
+					t.Locals = append(t.Locals, id.Name)
+				}
+			}
+		}
+	}
+	return t
+}
+
+func unitName(ct *Contract) string {
+	if ct.Pkg != nil && ct.Pkg.Name() != "adaptation" {
+		if ct.Pkg.Name() == "main" {
+			// commands: several of them may be loaded for one property, name by directory
+			return filepath.Base(ct.Pkg.Path()) + "." + ct.Key
+		}
+		return ct.Pkg.Name() + "." + ct.Key
+	}
+	return ct.Key
+}
+
+// aliasesFor maps names of the recorded table to the names now at the same positions.
+func aliasesFor(old, cur NameTable) map[string]string {
+	al := map[string]string{}
+	add := func(a, b []string) {
+		if len(a) != len(b) {
+			return
+		}
+		for i := range a {
+			if a[i] != b[i] {
+				al[a[i]] = b[i]
+			}
+		}
+	}
+	add(old.Params, cur.Params)
+	add(old.Locals, cur.Locals)
+	return al
+}
+
 type UnitResult struct {
+	Names    NameTable
 	Unit     string
 	Contract *Contract
 	Lemma    *Lemma
@@ -21,14 +86,7 @@ type UnitResult struct {
 
 // VerifyFunc generates the verification conditions of one function under contract.
 func (prog *Program) VerifyFunc(ct *Contract, opts Options) (res *UnitResult) {
-	vc := NewVC(ct.Key)
-	if ct.Pkg != nil && ct.Pkg.Name() != "adaptation" {
-		vc.Unit = ct.Pkg.Name() + "." + ct.Key
-		if ct.Pkg.Name() == "main" {
-			// commands: several of them may be loaded for one property, name by directory
-			vc.Unit = filepath.Base(ct.Pkg.Path()) + "." + ct.Key
-		}
-	}
+	vc := NewVC(unitName(ct))
 	vc.BV = ct.BV
 	res = &UnitResult{Unit: vc.Unit, Contract: ct, VC: vc, Pos: fmt.Sprintf("%s:%d", ct.File, ct.Line)}
 	defer func() {
@@ -47,6 +105,17 @@ func (prog *Program) VerifyFunc(ct *Contract, opts Options) (res *UnitResult) {
 		opts.InlineDepth = 6
 	}
 	x := &Exec{prog: prog, vc: vc, top: ct, callOrd: map[string]int{}, oblNames: map[string]int{}, opts: opts, closures: map[string]*Closure{}}
+	if ct.Fn != nil {
+		cur := namesOf(ct.Fn)
+		if old, ok := NameBaseline[vc.Unit]; ok {
+			x.alias = aliasesFor(old, cur)
+		}
+		defer func() {
+			if res != nil {
+				res.Names = cur
+			}
+		}()
+	}
 	x.heap = newHeap(vc)
 	x.heap.declare(allocKey, "Int")
 	x.entry = newState()
